@@ -55,7 +55,7 @@ static const MPT_STRUCT(type_traits) h_traits = { h_init, h_fini, ESZ };
 void harness(void)
 {
 	IN(size_t, in_used); IN(uintptr_t, in_refs); IN(int, in_flags); IN(int, in_typed); IN(int, in_fail); IN(size_t, in_k);
-	uint8_t in_content[NEL * ESZ];
+	uint8_t in_content[NEL * ESZ]; V_FILL(in_content); V_OBJ(h_blk0); V_OBJ(h_blk1);
 	MPT_STRUCT(buffer) *b, *n; MPT_STRUCT(bufferData) *bd; size_t i, nel; uint8_t ok_ = 0;
 	V_REQ(in_refs >= 1 && in_refs <= 2 && (in_flags & ~3) == 0 && in_used <= NEL * ESZ && IMP(in_typed, in_used % ESZ == 0));
 	b = _mpt_buffer_alloc(NEL * ESZ, in_flags);
